@@ -24,26 +24,31 @@ sys.path.insert(0, os.path.dirname(os.path.abspath(__file__)))
 from py2gallina import Unsupported  # noqa: E402
 
 
-def tests_in_order(body):
-    """test expressions of if / elif / while / assert statements, in source order"""
+def tests_in_order(body, returns=False):
+    """test expressions of if / elif / while / assert statements — with returns=True also the returned expressions
+    (for predicates like Loop._has_single_child_that_can_be_merged) — in source order"""
     out = []
     for s in body:
         if isinstance(s, ast.If):
             out.append(s.test)
-            out.extend(tests_in_order(s.body))
-            out.extend(tests_in_order(s.orelse))
+            out.extend(tests_in_order(s.body, returns))
+            out.extend(tests_in_order(s.orelse, returns))
         elif isinstance(s, ast.While):
             out.append(s.test)
-            out.extend(tests_in_order(s.body))
-            out.extend(tests_in_order(s.orelse))
+            out.extend(tests_in_order(s.body, returns))
+            out.extend(tests_in_order(s.orelse, returns))
         elif isinstance(s, ast.Assert):
             out.append(s.test)
+        elif isinstance(s, ast.Return) and returns:
+            if s.value is None:
+                raise Unsupported('bare return in a predicate')
+            out.append(s.value)
         elif isinstance(s, (ast.For, ast.With, ast.Try)):
-            out.extend(tests_in_order(s.body))
+            out.extend(tests_in_order(s.body, returns))
             for h in getattr(s, 'handlers', []):
-                out.extend(tests_in_order(h.body))
-            out.extend(tests_in_order(getattr(s, 'orelse', [])))
-            out.extend(tests_in_order(getattr(s, 'finalbody', [])))
+                out.extend(tests_in_order(h.body, returns))
+            out.extend(tests_in_order(getattr(s, 'orelse', []), returns))
+            out.extend(tests_in_order(getattr(s, 'finalbody', []), returns))
     return out
 
 
@@ -63,6 +68,8 @@ class ExprTranslator:
         if key in self.obs:
             return self.obs[key][1]
         if isinstance(e, (ast.BoolOp, ast.Compare)) or (isinstance(e, ast.UnaryOp) and isinstance(e.op, ast.Not)):
+            return 'bool'
+        if isinstance(e, ast.Constant) and isinstance(e.value, bool):
             return 'bool'
         if isinstance(e, ast.Call) and ast.unparse(e.func) == 'np.any':
             return 'bool'
@@ -84,8 +91,10 @@ class ExprTranslator:
         key = ast.unparse(e)
         if key in self.obs:
             return self.obs[key][0]
+        if isinstance(e, ast.Constant) and isinstance(e.value, bool):
+            return 'true' if e.value else 'false'
         if isinstance(e, ast.Constant):
-            if isinstance(e.value, bool) or not isinstance(e.value, int):
+            if not isinstance(e.value, int):
                 raise Unsupported('constant ' + repr(e.value))
             return str(e.value) if e.value >= 0 else '(%d)' % e.value
         if isinstance(e, ast.BoolOp):
@@ -141,7 +150,8 @@ def _check_any(e, top):
 
 
 def translate_decisions(path, spec, prefix='gen_'):
-    """spec: list of (function name (or Class.method), observations, number of tests expected)"""
+    """spec: list of (function name (or Class.method; a trailing `!returns` also collects the returned expressions),
+    observations, number of tests expected)"""
     with open(path) as fh:
         tree = ast.parse(fh.read())
     funcs = {}
@@ -155,9 +165,11 @@ def translate_decisions(path, spec, prefix='gen_'):
     parts = ['(* GENERATED by /verif/translate/py2gallina_c16.py from %s -- do not edit *)' % path,
              'From Coq Require Import ZArith Bool.', 'Open Scope Z_scope.', 'Open Scope bool_scope.', '']
     for fname, observations, ntests in spec:
+        returns = fname.endswith('!returns')
+        fname = fname[:-len('!returns')] if returns else fname
         if fname not in funcs:
             raise Unsupported('function %s not found' % fname)
-        tests = tests_in_order(funcs[fname].body)
+        tests = tests_in_order(funcs[fname].body, returns)
         if len(tests) != ntests:
             raise Unsupported('%s has %d tests, %d expected: %s' % (fname, len(tests), ntests,
                                                                     ' | '.join(ast.unparse(t) for t in tests)))
